@@ -353,6 +353,64 @@ def confirm(mod, paths, case, times=3):
     return n, msg
 
 
+def fuzz_phase(mod, paths, tier, seed):
+    """Optional libFuzzer campaigns (module attribute FUZZ).  Each target embeds its own oracle and traps on a
+    violation; the saved crash-* input is the replay file (run the target binary on it).  -seed only pins a campaign
+    approximately; the artifact is the reproducible unit.  Only crash-* artifacts count (never timeout/oom/slow-unit)."""
+    out = {"fuzz": []}
+    viols = []
+    for spec in getattr(mod, "FUZZ", []):
+        binp = paths[spec["target"]]
+        runs = spec["runs"][tier]
+        jobs = spec.get("jobs", {"quick": 4, "thorough": 16})[tier]
+        d = os.path.join(OUT, mod.ID, "fuzz-%s-%d" % (spec["target"], os.getpid()))
+        os.makedirs(d, exist_ok=True)
+        procs = []
+        env = dict(os.environ, ASAN_OPTIONS="detect_leaks=0:abort_on_error=0:handle_segv=1")
+        for j in range(jobs):
+            cd = os.path.join(d, "corpus%d" % j)
+            os.makedirs(cd, exist_ok=True)
+            for f in glob.glob(os.path.join(REGRESS, mod.ID, "fuzz", "*")):
+                try:
+                    import shutil
+                    shutil.copy(f, cd)
+                except Exception:
+                    pass
+            log = open(os.path.join(d, "log%d" % j), "w")
+            procs.append((subprocess.Popen([binp, "-runs=%d" % max(1, runs // jobs), "-seed=%d" % (seed * 100 + j + 1),
+                                            "-max_len=%d" % spec.get("max_len", 256), "-artifact_prefix=%s/" % d,
+                                            "-timeout=60", "-print_final_stats=1", cd],
+                                           stdout=log, stderr=subprocess.STDOUT, env=env), log))
+        execs = 0
+        units = 0
+        for j, (p, log) in enumerate(procs):
+            p.wait()
+            log.close()
+            txt = open(os.path.join(d, "log%d" % j), errors="replace").read()
+            for ln in txt.splitlines():
+                if ln.startswith("stat::number_of_executed_units:"):
+                    execs += int(ln.split(":")[-1])
+            units += len(os.listdir(os.path.join(d, "corpus%d" % j)))
+        crashes = sorted(glob.glob(os.path.join(d, "crash-*")))
+        for c in crashes[:3]:
+            fails = 0
+            msg = ""
+            for _ in range(3):
+                r = subprocess.run([binp, c], capture_output=True, text=True, errors="replace", env=env)
+                if r.returncode != 0:
+                    fails += 1
+                    m = [l for l in r.stderr.splitlines() if "FZ-VIOLATION" in l or "ERROR: AddressSanitizer" in l]
+                    msg = (m[0] if m else r.stderr[-200:]).strip()
+            if fails == 3:
+                viols.append((c, "libFuzzer target %s: %s" % (spec["target"], msg)))
+        out["fuzz"].append({"target": spec["target"], "executions": execs, "corpus_units": units, "crash_artifacts": len(crashes),
+                            "runs_requested": runs, "jobs": jobs})
+        if not crashes:
+            import shutil
+            shutil.rmtree(d, ignore_errors=True)
+    return out, viols
+
+
 def main(modname, argv):
     import importlib, argparse
     ap = argparse.ArgumentParser()
@@ -375,7 +433,19 @@ def main(modname, argv):
         return 3
 
     if a.replay:
-        case, meta = load_case(a.replay)
+        try:
+            case, meta = load_case(a.replay)
+        except (ValueError, KeyError, UnicodeDecodeError):
+            # not a JSON case: a libFuzzer artifact - run the module's fuzz target(s) on it
+            env = dict(os.environ, ASAN_OPTIONS="detect_leaks=0", FZ_EXPLAIN="1")
+            for spec in getattr(mod, "FUZZ", []):
+                r = subprocess.run([paths[spec["target"]], a.replay], capture_output=True, text=True, errors="replace", env=env)
+                print(r.stderr[-1500:])
+                if r.returncode != 0:
+                    print("VIOLATION property=%s replay=%s" % (mod.ID, os.path.abspath(a.replay)))
+                    return 1
+            print("replay: pass")
+            return 0
         ctx = Ctx(paths)
         res = mod.run_case(ctx, case)
         ctx.close()
@@ -487,6 +557,11 @@ def main(modname, argv):
                     violations.append((save_replay(mod, case, msg), msg))
                 else:
                     unstable.append((save_replay(mod, case, msg, "unstable"), msg))
+
+    if getattr(mod, "FUZZ", None) and not violations:
+        fz, fv = fuzz_phase(mod, paths, tier, seed)
+        extra.update(fz)
+        violations.extend(fv)
 
     wall = time.time() - t0
     cov = {"evaluations": stats.evals, "distinct_nontrivial": len(stats.nontrivial),
